@@ -267,7 +267,7 @@ def run(tier, replay=None):
     # (1) complete product automaton: strings of every length
     r1 = run_tlc('Resolver', 'Resolver_product.cfg', env=env, timeout=1800)
     V.add_tlc(r1, 'Resolver product automaton (all strings of all lengths)')
-    if not r1.complete:
+    if not r1.complete and not r1.violated:
         raise MachineryError('product exploration did not complete')
     V.exhaustive = True
     # (2) every word up to a length bound over the number/boolean alphabet
